@@ -246,7 +246,66 @@ def endian_facts(F: Facts) -> None:
     F.define("hexdump_special_columns", "list Z", clist((cz(c) for c in sorted(cols)), "Z"))
 
 
-GENERATORS = [expression_facts, type_facts, endian_facts]
+def sharing_facts(F: Facts) -> None:
+    """Type-level scratch state on the parse/dump path (C14, C15): attribute stores and in-place mutations on `self`/`cls` inside
+    Expression.evaluate, and inside the _read*/_write* methods of the type classes; `global` statements in those modules."""
+    import dissect.cstruct.bitbuffer as m_bb
+    import dissect.cstruct.compiler as m_comp
+    import dissect.cstruct.expression as m_expr
+    import dissect.cstruct.types.base as m_base
+    import dissect.cstruct.types.char as m_char
+    import dissect.cstruct.types.enum as m_enum
+    import dissect.cstruct.types.int as m_int
+    import dissect.cstruct.types.leb128 as m_leb
+    import dissect.cstruct.types.packed as m_packed
+    import dissect.cstruct.types.pointer as m_ptr
+    import dissect.cstruct.types.structure as m_struct
+    import dissect.cstruct.types.wchar as m_wchar
+
+    MUTATORS = {"append", "pop", "extend", "insert", "clear", "update", "remove", "setdefault", "popitem", "sort", "reverse"}
+
+    def scratch(fn: ast.FunctionDef, receivers: set[str]) -> list[str]:
+        out = []
+        for n in ast.walk(fn):
+            targets = []
+            if isinstance(n, ast.Assign):
+                targets = n.targets
+            elif isinstance(n, (ast.AugAssign, ast.AnnAssign)):
+                targets = [n.target]
+            for t in targets:
+                if isinstance(t, ast.Attribute) and isinstance(t.value, ast.Name) and t.value.id in receivers:
+                    out.append(f"{fn.name}:{t.value.id}.{t.attr}")
+            if isinstance(n, ast.Call) and isinstance(n.func, ast.Attribute) and n.func.attr in MUTATORS:
+                recv = n.func.value
+                if isinstance(recv, ast.Attribute) and isinstance(recv.value, ast.Name) and recv.value.id in receivers:
+                    out.append(f"{fn.name}:{recv.value.id}.{recv.attr}.{n.func.attr}()")
+        return out
+
+    cls = _class_node(inspect.getsource(m_expr), "Expression")
+    ev = _method(cls, "evaluate")
+    F.define("expr_scratch_attrs", "list string", clist((cstr(x) for x in (scratch(ev, {"self"}) if ev else ["<evaluate missing>"])), "string"))
+
+    stores, globals_ = [], 0
+    for mod in (m_base, m_char, m_enum, m_int, m_leb, m_packed, m_wchar, m_struct, m_bb, m_comp, m_expr, m_ptr):
+        tree = ast.parse(inspect.getsource(mod))
+        globals_ += sum(1 for n in ast.walk(tree) if isinstance(n, (ast.Global, ast.Nonlocal)) and not (mod is m_comp and isinstance(n, ast.Nonlocal)))
+        for c in [n for n in tree.body if isinstance(n, ast.ClassDef)]:
+            for fn in [n for n in c.body if isinstance(n, ast.FunctionDef)]:
+                if fn.name in ("_read", "_read_array", "_read_0", "_write", "_write_array", "_write_0", "_read_fields", "reads", "read", "dumps", "write"):
+                    stores += [f"{mod.__name__.split('.')[-1]}.{c.name}.{x}" for x in scratch(fn, {"cls"})]
+    F.define("type_level_stores", "list string", clist((cstr(x) for x in stores), "string"))
+    F.define("global_statements", "Z", cz(globals_))
+    # probed behaviour: do two default constructions share a list / a nested structure?
+    from dissect.cstruct import cstruct
+
+    cs = cstruct()
+    cs.load("struct probe_in { uint8 x; }; struct probe { uint8 a[2]; probe_in s; probe_in t[2]; };")
+    p, q = cs.probe(), cs.probe()
+    fresh = p.a is not q.a and p.s is not q.s and p.t is not q.t and p.t[0] is not p.t[1]
+    F.define("defaults_fresh", "bool", cbool(fresh))
+
+
+GENERATORS = [expression_facts, type_facts, endian_facts, sharing_facts]
 
 
 def render() -> str:
